@@ -469,4 +469,4 @@ def check_case(case, _debug=None):
     if _debug is not None:
         _debug.update(stats)
         _debug["nresp"] = nresp
-    return labels, V
+    return list(dict.fromkeys(labels)), V
